@@ -167,11 +167,14 @@ pub fn run(r: &Run) {
     r.assume("a lost peer's routes leave the RIB without per-route withdraw events; the subscriber removes them on the PeerDown event the daemon emits right after (RFC 7854 §4.9); graceful-restart retention (stale routes of a peer that is down) is out of this check's scope");
     r.prop("subscribe-histories", r.tier.pick(150_000, 4_000_000), || arb_case(r.tier.pick(14, 24)), check);
     r.prop("peer-pairing", r.tier.pick(20_000, 300_000), || proptest::collection::vec((0u8..N_PEERS, any::<bool>()), 0..16).prop_map(|events| PairCase { events }), check_pairing);
+    r.assume(super::c18e::RULE);
+    r.prop("bmp-station", r.tier.pick(2_500, 80_000), || super::c18e::arb_case(r.tier.pick(16, 28)), super::c18e::check);
 }
 
 pub fn replay(sub: &str, case: &Value) -> Result<CheckResult, String> {
     match sub {
         "peer-pairing" => Ok(check_pairing(&decode_case(case)?)),
+        "bmp-station" => super::c18e::replay(case),
         _ => Ok(check(&decode_case(case)?)),
     }
 }
